@@ -15,10 +15,17 @@ HOSTILE_TZIDS = ["America", "../../etc/passwd", "/etc/passwd", "a" * 300, "", "E
                  "Europe/Berlin/", "europe/berlin", "Zulu", "America/Argentina", "x" * 5000, "퟿",
                  "Asia/Kolkata ", " ", "~", "right/UTC", "tzdata.zi", "zone.tab", "Factory", "SystemV/AST4"]
 HOSTILE_OFFSETS = ["+2500", "-0000", "+ab12", "+010", "+01000000", "", "+9999", "-2359", "+235959", "0100", "+24"]
-HOSTILE_DATES = ["00000000", "20200230", "99991231T235959Z", "2020-03-10", "20200310T250000", "10000101T000000",
+HOSTILE_DATES = ["99991231T235959Z/PT1H", "99991231T235959Z/P1D", "00010101T000000Z/-P1D", "99991231T235959/PT1S",
+                 "20200101T000000Z/P999999999D", "99991231", "00010101", "99991231T235959", "00010101T000000",
+                 "00000000", "20200230", "99991231T235959Z", "2020-03-10", "20200310T250000", "10000101T000000",
                  "20200310T100000ZZ", "20200310T", "T100000", "0001-01-01", "20200310T100000+0100", "",
                  "19700101T000000", "20380119T031408Z", "99999999T999999", "20200310T100000Z/PT1H",
                  "20200310T100000/20200310T090000", "20200310T100000Z/20200310T110000", "P1D", "-P", "PT"]
+HOSTILE_DURATIONS = ["P", "PT", "-P1W1D", "P1Y", "PT1H1D", "P-1D", "P1.5D", "P999999999999D", "+P", "p1d",
+                     "PT999999999999999999999S", "-P99999999999W", "P0D", "PT0S", "-PT0S", "P1DT", "P1W2D", "PT1M1H",
+                     "P999999999D", "PT86400S", "P١D", "P1D ", " P1D", "P1DT1H1M1S1", "PT1H30M15.5S"]
+HOSTILE_NUMBERS = ["", "1e400", "NaN", "-", "+", "1_000", "٣", "99999999999999999999999999999999999999", "0x10",
+                   "1.5", "-0", "+7", " 7", "7 ", "١٢٣", "1e3", "inf", "−1"]
 HOSTILE_RULES = ["FREQ=SECONDLY", "FREQ=YEARLY;INTERVAL=0", "FREQ=DAILY;INTERVAL=0;BYMONTH=8;BYDAY=-1MO",
                  "FREQ=DAILY;COUNT=99999999", "FREQ=YEARLY;UNTIL=99991231T235959Z",
                  "FREQ=MINUTELY;BYDAY=2SU;BYMONTH=3", "FREQ=HOURLY;INTERVAL=1;BYDAY=2SU;BYMONTH=3",
@@ -148,6 +155,10 @@ def draw(rng, doc, kind, other=b""):
                 cands.append((i, "tzid-prop"))
             if u.startswith(b"TZOFFSET"):
                 cands.append((i, "offset"))
+            if u.startswith((b"DURATION", b"TRIGGER")):
+                cands.append((i, "duration"))
+            if u.startswith((b"SEQUENCE", b"PRIORITY", b"PERCENT-COMPLETE", b"REPEAT", b"GEO")):
+                cands.append((i, "number"))
             if u.startswith((b"RRULE", b"EXRULE")):
                 cands.append((i, "rrule"))
                 cands.append((i, "rrule"))
@@ -158,7 +169,8 @@ def draw(rng, doc, kind, other=b""):
             return None
         i, what = rng.choice(cands)
         pool = {"tzid-param": HOSTILE_TZIDS, "tzid-prop": HOSTILE_TZIDS, "offset": HOSTILE_OFFSETS,
-                "date": HOSTILE_DATES, "rrule": HOSTILE_RULES}[what]
+                "date": HOSTILE_DATES, "rrule": HOSTILE_RULES, "duration": HOSTILE_DURATIONS,
+                "number": HOSTILE_NUMBERS}[what]
         return {"kind": kind, "i": i, "what": what, "value": rng.choice(pool)}
     if kind == "token_subst":
         present = [t for t in sorted(TOKENS) if t in doc]
